@@ -120,6 +120,27 @@ def run_variable_case(ctx, res, spec, lines, post):
     z2 = var.normalize(var.denormalize(z))
     if not np.all(np.abs(z2 - z) <= 1e-9 * np.maximum(1.0, np.abs(z))):
         res.failures.append({'kind': 'normalize(denormalize(z)) != z', 'input': info, 'observed': z2.tolist(), 'expected': z.tolist()})
+    # the same values handed over in other containers / dtypes (integer array, float32 array, list, scalar): same normalised values
+    ints = [v for v in range(int(np.ceil(dom[0])), int(np.floor(dom[1])) + 1)][:5]
+    if ints and len(spec['norm']) >= 1:
+        ref_z = np.asarray(var.normalize(np.array(ints, dtype=np.float64)), dtype=float)
+        for label, arg in (('int64 array', np.array(ints, dtype=np.int64)), ('list of ints', list(ints)),
+                           ('float32 array', np.array(ints, dtype=np.float32))):
+            try:
+                got_z = np.asarray(var.normalize(arg), dtype=float)
+                back_i = np.asarray(var.denormalize(var.normalize(arg)), dtype=float)
+            except Exception as e:  # noqa: BLE001
+                res.failures.append({'kind': 'normalize-raised', 'input': {**info, 'container': label}, 'observed': repr(e)[:200]})
+                continue
+            tol_ = 1e-5 if 'float32' in label else 1e-9
+            if got_z.shape != ref_z.shape or not np.all(np.abs(got_z - ref_z) <= tol_ * np.maximum(1.0, np.abs(ref_z))):
+                res.failures.append({'kind': 'normalised-values-depend-on-the-container-or-dtype-of-the-input',
+                                     'input': {**info, 'container': label, 'values': ints},
+                                     'observed': got_z.tolist(), 'expected': ref_z.tolist()})
+            elif not np.all(np.abs(back_i - np.array(ints, dtype=float)) <= max(tol_, 1e-9) * np.maximum(1.0, np.abs(ints))):
+                res.failures.append({'kind': 'denormalize(normalize(x)) != x', 'input': {**info, 'container': label, 'values': ints},
+                                     'observed': back_i.tolist(), 'expected': ints})
+        res.hit('integer-and-float32-containers')
     # normalised domain is the image of the domain
     from amisc.variable import VariableList
     nd = VariableList([var]).get_domains()[var.name]
